@@ -16,19 +16,21 @@ Definition numeral_value (s : list N) : option N :=
   end.
 
 Definition spec_lookup_str {X} (k : kind) (l : list (option X)) (idof : X -> option nat) (s : list N) : list nat :=
+  let plain := match plain_token k s with
+               | Some tok => s_resolve l idof (N.to_nat tok)
+               | None => []
+               end in
   match s with
-  | 33%N :: c :: rest =>
-      if N.eqb c (letter k) then
-        match numeral_value rest with
-        | Some n => if N.ltb n (N.of_nat (length l))
-                    then (match slot l (N.to_nat n) with Some _ => [N.to_nat n] | None => [] end)
-                    else []
-        | None => []
-        end
-      else []
-  | _ =>
-      match plain_token k s with
-      | Some tok => s_resolve l idof (N.to_nat tok)
-      | None => []
-      end
+  | c0 :: c :: rest =>
+      if N.eqb c0 33 then                       (* '!' *)
+        if N.eqb c (letter k) then
+          match numeral_value rest with
+          | Some n => if N.ltb n (N.of_nat (length l))
+                      then (match slot l (N.to_nat n) with Some _ => [N.to_nat n] | None => [] end)
+                      else []
+          | None => []
+          end
+        else []
+      else plain
+  | _ => plain
   end.
